@@ -8,6 +8,7 @@ import (
 	"time"
 
 	sdkmath "cosmossdk.io/math"
+	abci "github.com/cometbft/cometbft/abci/types"
 	cryptotypes "github.com/cosmos/cosmos-sdk/crypto/types"
 	"github.com/cosmos/cosmos-sdk/testutil/sims"
 	sdk "github.com/cosmos/cosmos-sdk/types"
@@ -76,6 +77,7 @@ type ibcWorld struct {
 	total  []*big.Int // per family: what exists in total
 	nUsers int
 	stats  *e.Stats
+	w      *e.World // only for its tx builder (codec, signer); its own replica is idle in two-chain runs
 }
 
 // guarded runs code that may end in t.FailNow() (runtime.Goexit) of the testing
@@ -417,4 +419,72 @@ func (iw *ibcWorld) setPaused(f *ibcFamily, on bool) {
 		panic(fmt.Errorf("harness: %s token %s: %w", method, f.Name, err))
 	}
 	iw.commit(c)
+}
+
+type ics20Height struct {
+	RevisionNumber uint64
+	RevisionHeight uint64
+}
+
+// sendViaPrecompile performs the same transfer as send, but as an Ethereum
+// transaction of the user to the ICS-20 precompile (0x…0802).
+func (iw *ibcWorld) sendViaPrecompile(c int, f, from, to int, amt *big.Int, timeoutBlocks uint64) (*ibcPacket, error) {
+	fam := iw.fams[f]
+	d := iw.other(c)
+	src, dst := iw.ch[c], iw.ch[d]
+	chain := src.tc
+	rev := clienttypes.ParseChainID(dst.tc.ChainID)
+	acct := iw.users[c][from]
+	receiver := "not-an-address"
+	switch {
+	case to >= 0:
+		receiver = iw.users[d][to].Acc.String()
+	case to == -2:
+		receiver = authtypes.NewModuleAddress(authtypes.FeeCollectorName).String()
+	}
+	data, err := loadABI("ics20").Pack("transfer", src.ep.ChannelConfig.PortID, src.ep.ChannelID, iw.denomOn(fam, c), amt, acct.Eth, receiver,
+		ics20Height{rev, uint64(dst.tc.CurrentHeader.Height) + timeoutBlocks}, uint64(0), "")
+	if err != nil {
+		return nil, fmt.Errorf("harness: pack ics20 transfer: %w", err)
+	}
+	iw.coord.UpdateTimeForChain(chain)
+	ctx := chain.GetContext()
+	nonce := src.app.EvmKeeper.GetNonce(ctx, acct.Eth)
+	price := new(big.Int).Mul(src.app.FeeMarketKeeper.GetBaseFee(ctx), big.NewInt(2))
+	if price.Sign() == 0 {
+		price = big.NewInt(1_000_000_000)
+	}
+	target := addrICS20
+	bz, _, err := iw.w.BuildEthTx(acct, e.EthArgs{Type: 2, To: &target, Gas: 3_000_000, Data: data, Nonce: &nonce, GasPrice: price, ChainID: src.app.EvmKeeper.ChainID()})
+	if err != nil {
+		return nil, fmt.Errorf("harness: build eth tx: %w", err)
+	}
+	res := chain.App.DeliverTx(abci.RequestDeliverTx{Tx: bz})
+	if iw.stats != nil {
+		iw.stats.Txs++
+		iw.stats.Blocks++
+		if res.Code == 0 {
+			iw.stats.TxsOK++
+		}
+	}
+	chain.NextBlock()
+	iw.coord.IncrementTime()
+	iw.syncRelayer(c)
+	if res.Code != 0 {
+		return nil, fmt.Errorf("eth tx failed: code %d: %s", res.Code, res.Log)
+	}
+	if r, err := iw.w.EthResponse(e.TxResult{Code: res.Code, Data: res.Data, Log: res.Log}); err != nil || r.Failed() {
+		return nil, fmt.Errorf("precompile call failed in the EVM")
+	}
+	evs := make(sdk.Events, 0, len(res.Events))
+	for _, ev := range res.Events {
+		evs = append(evs, sdk.Event(ev))
+	}
+	packet, err := ibcgotesting.ParsePacketFromEvents(evs)
+	if err != nil {
+		return nil, fmt.Errorf("transfer succeeded without a send_packet event: %w", err)
+	}
+	p := &ibcPacket{ID: len(iw.pkts), Fam: f, Src: c, From: from, To: to, Amt: new(big.Int).Set(amt), Packet: packet}
+	iw.pkts = append(iw.pkts, p)
+	return p, nil
 }
